@@ -30,6 +30,7 @@ V(i) == CASE i = 1 -> [t |-> "int", v |-> 1]
           [] i = 6 -> [t |-> "str", v |-> 101]      \* 'x' : equal to the NAME x inside a flat key
           [] i = 7 -> [t |-> "str", v |-> 110]      \* '1' : the repr of the int 1
           [] i = 8 -> [t |-> "str", v |-> 111]      \* a string of 205 characters
+          [] i = 9 -> [t |-> "obj", v |-> 120]      \* an instance of a user class
           [] OTHER -> [t |-> "int", v |-> 7]
 NULL == [t |-> "NULL", v |-> 0]
 MARK == [t |-> "mark", v |-> 0]
@@ -145,9 +146,14 @@ SeqPyEq(s, w) == Len(s) = Len(w) /\ \A x \in 1..Len(s) : ElemEq(s[x], w[x])
 DictPyEq(d, f) == /\ ONames(d) = ONames(f)
                   /\ \A x \in 1..Len(d) : \A y \in 1..Len(f) : d[x].n = f[y].n => ElemEq(d[x].v, f[y].v)
 \* equality of two encoded keys, by what the encoder preserves
+\* named deviation "stringmap_bare_str" (known finding): the str encoding of a key that is one bare value does not tell
+\* the int 1 from the string '1'
+StrSame(x, y) == x = y \/ {x, y} = {V(1), V(7)}
 KeyEq(km, a, b) ==
   IF km.enc = "raw"
   THEN a.shape = b.shape /\ SeqPyEq(a.a, b.a) /\ DictPyEq(a.kw, b.kw) /\ a.ta = b.ta /\ a.tk = b.tk
+  ELSE IF km.enc = "str" /\ "stringmap_bare_str" \in Deviations /\ a.shape = "single" /\ b.shape = "single"
+  THEN StrSame(a.a[1], b.a[1])
   ELSE a = b
 
 Key(sig, ign, km, c) == KeyStruct(km, Keygen(sig, ign, c))
